@@ -483,6 +483,183 @@ def check_dispatching(ctx, text, kw, fail):
         fail("dispatch:trace", "DispatchingVisitor does not make the calls of a plain visitor", {"dispatching": True})
 
 
+# -- DispatchingVisitor class hierarchies -------------------------------------------------------------
+
+HISTORIES = ("base-then-subclass", "subclass-then-base", "siblings-after-base", "siblings", "subsubclass", "subsubclass-first")
+_CLS_COUNTER = [0]
+
+
+def _handler_names():
+    _v = V()
+    return [n for n in dir(_v.DispatchingVisitor) if n.startswith("enter_") or n.startswith("leave_")]
+
+
+def _make_class(base, tag, names, log, actions):
+    """A NEW (never used) subclass of `base` defining the handlers `names`: each logs (tag, handler, node) and
+    applies `actions` (id(node) -> (kind, arg)) if it is an enter handler."""
+    _v = V()
+    ns = {}
+    for nm in names:
+        if nm.startswith("enter_"):
+            def h(self, node, nm=nm):
+                log.append((tag, nm, node))
+                act = actions.get(id(node))
+                if act is None:
+                    return node
+                if act[0] == "delete":
+                    return None
+                if act[0] == "skip":
+                    raise _v.SkipNode()
+                return act[1]
+        else:
+            def h(self, node, nm=nm):
+                log.append((tag, nm, node))
+        ns[nm] = h
+    _CLS_COUNTER[0] += 1
+    return type("Dyn%s_%d" % (tag, _CLS_COUNTER[0]), (base,), ns)
+
+
+def check_class_history(ctx, text, kw, fail, history, rng, pos=None, act=None):
+    """DispatchingVisitor classes created for this case and used in a given order: every instance must do what
+    ITS class defines (most-derived handler per node kind), whatever classes were used before it."""
+    _v = V()
+    names = sorted(_handler_names())
+    doc0 = parse_doc(text, kw)
+    base_tr = []
+    make_recorder(_v.ASTVisitor, 0, base_tr).visit(doc0)
+    ent0 = [e[-1] for e in base_tr if e[-2] == "enter"]
+    idx0 = Index(doc0)
+    order0 = {id(n): q for q, n in enumerate(idx0.nodes)}
+    if pos is None:
+        pos = rng.randrange(len(ent0))
+    pos = min(pos, len(ent0) - 1)
+    act = act or rng.choice(["delete", "skip", "replace", "none"])
+    xk = kind(ent0[pos])
+    hx = "enter_" + snake(xk)
+    # handler sets: the base logs a subset; subclasses override the handler of x's kind and add others
+    rs = rng.sample(names, min(len(names), 12))
+    sets = {"P": set(rs[:6]) | {hx}, "C": {hx} | set(rs[6:9]), "D": {hx} | set(rs[9:12]), "CC": {hx, "leave_" + snake(xk)}}
+    parents = {"P": None, "C": "P", "D": "P", "CC": "C"}
+    uses = {"base-then-subclass": ["P", "C"], "subclass-then-base": ["C", "P"], "siblings-after-base": ["P", "C", "D"],
+            "siblings": ["C", "D"], "subsubclass": ["P", "C", "CC"], "subsubclass-first": ["CC", "C", "P"]}[history]
+    acting = {"P": False, "C": True, "D": True, "CC": True}
+    classes, acts, log = {}, {}, []
+
+    def get_class(tag):
+        if tag not in classes:
+            par = _v.DispatchingVisitor if parents[tag] is None else get_class(parents[tag])
+            acts[tag] = {}    # only the handlers DEFINED by `tag` apply these
+            classes[tag] = _make_class(par, tag, sorted(sets[tag]), log, acts[tag])
+        return classes[tag]
+
+    def definer(tag, nm):
+        while tag is not None:
+            if nm in sets[tag]:
+                return tag
+            tag = parents[tag]
+        return None
+
+    for tag in uses:
+        cls = get_class(tag)
+        del log[:]
+        for a in acts.values():
+            a.clear()
+        doc = parse_doc(text, kw)
+        idx = Index(doc)
+        x = idx.nodes[order0[id(ent0[pos])]]
+        this_act = act if acting[tag] else "none"
+        r = copy.deepcopy(x)
+        if this_act != "none":
+            acts[definer(tag, hx)][id(x)] = (this_act, r)
+        # reference: plain ASTVisitor with the same action on a second fresh tree
+        doc_r = parse_doc(text, kw)
+        idx_r = Index(doc_r)
+        x_r = idx_r.nodes[order0[id(ent0[pos])]]
+        ref = []
+        ref_res = make_recorder(_v.ASTVisitor, 0, ref, {id(x_r): (this_act, copy.deepcopy(x_r))} if this_act != "none" else None).visit(doc_r)
+        try:
+            res = cls().visit(doc)
+        except Exception as e:  # noqa
+            fail("dispatch:class-history:raises", "a DispatchingVisitor subclass raises %s" % type(e).__name__,
+                 {"history": history, "pos": pos, "act": act})
+            return
+        ctx.count()
+        exp = []
+        for e in ref:
+            nm = e[-2] + "_" + snake(kind(e[-1]))
+            d = definer(tag, nm)
+            if d is not None:
+                exp.append((d, nm, kind(e[-1]), e[-1].loc))
+        got = [(t, nm, kind(n), n.loc) for (t, nm, n) in log]
+        same_tree = (res is None and ref_res is None) or (res is not None and ref_res is not None and res.to_dict() == ref_res.to_dict())
+        if got != exp or not same_tree:
+            cause = "tree" if not same_tree else "handlers"
+            fail("dispatch:class-history:%s" % cause,
+                 "a DispatchingVisitor class used after a related class (%s, instance of %s) does not run its own handlers: %s differs from the plain-visitor reference"
+                 % (history, tag, "the resulting tree" if cause == "tree" else "the set of handler calls"),
+                 {"history": history, "pos": pos, "act": act, "class": tag})
+            return
+
+
+def check_chain_skips(ctx, text, kw, fail, k, positions):
+    """chains of k recorders; member j (every j) raises SkipNode at the node: the members after j are not entered
+    there, nobody leaves it, its children are not visited, the tree is unchanged AND every visitor's enter/leave on
+    ALL OTHER nodes is what it is without the skip."""
+    _v = V()
+    doc1 = parse_doc(text, kw)
+    single = []
+    make_recorder(_v.ASTVisitor, 0, single).visit(doc1)
+    idx1 = Index(doc1)
+    order1 = {id(n): q for q, n in enumerate(idx1.nodes)}
+    ent1 = [e[-1] for e in single if e[-2] == "enter"]
+    for pos in positions:
+        if pos >= len(ent1):
+            continue
+        i0, j0 = segment(single, ent1[pos])
+        for j in range(k):
+            doc = parse_doc(text, kw)
+            idx = Index(doc)
+            x = idx.nodes[order1[id(ent1[pos])]]
+            before = doc.to_dict()
+            trace = []
+            members = [make_recorder(_v.ASTVisitor, t, trace, {id(x): ("skip", None)} if t == j else None) for t in range(k)]
+            try:
+                res = _v.ChainedVisitor(*members).visit(doc)
+            except Exception as e:  # noqa
+                fail("chain:skip-not-local:raises", "a chain whose member raises SkipNode raises %s" % type(e).__name__,
+                     {"chain": k, "member": j, "pos": pos, "skips": True})
+                continue
+            ctx.count()
+            exp = []
+            for q, e in enumerate(single):
+                if q == i0:
+                    exp += [(t,) + key(e) for t in range(j + 1)]
+                elif i0 < q < j0:
+                    continue
+                else:
+                    tags = range(k) if e[-2] == "enter" else range(k - 1, -1, -1)
+                    exp += [(t,) + key(e) for t in tags]
+            got = [(e[0],) + key(e) for e in trace]
+            if got == exp and res is doc and doc.to_dict() == before:
+                continue
+            inner = set(range(i0 + 1, j0 - 1))
+            inner_keys = {key(single[q]) for q in inner}
+            xk = key(single[i0])[1:]
+            at_x = [g for g in got if g[2:] == xk and g[1] in ("enter", "leave")]
+            if res is not doc or doc.to_dict() != before:
+                cause = "tree-changed"
+            elif [g for g in got if g[1:] == key(single[i0])] != [(t,) + key(single[i0]) for t in range(j + 1)] or \
+                    any(g[1:] == key(single[j0 - 1]) for g in got):
+                cause = "at-the-node"
+            elif len(got) < len(exp) or len(got) > len(exp):
+                cause = "other-nodes-unbalanced"
+            else:
+                cause = "other-nodes-order"
+            fail("chain:skip-not-local:%s" % cause,
+                 "SkipNode raised by member %d of a chain of %d: the calls made to the members differ from the specified ones (%s)" % (j, k, cause),
+                 {"chain": k, "member": j, "pos": pos, "skips": True})
+
+
 def check_transforms(ctx, text, kw, fail):
     """the real helpers of py_gql.utilities.ast_transforms"""
     import py_gql.utilities.ast_transforms as T
